@@ -24,6 +24,9 @@ type party struct {
 	frozen bool // plain values (strings, bools) — nothing to watch
 }
 
+// objectObservation selects how top() reads an object: 0 Keys()+Get, 1 Dict(), 2 ForEach.
+var objectObservation int
+
 // top takes the top-level snapshot: per slot the scalar value or the identity of the nested container.
 func top(v any) any {
 	switch x := v.(type) {
@@ -34,11 +37,22 @@ func top(v any) any {
 		}
 		return out
 	case at.Object:
+		// the observation route is varied from scenario to scenario so that the monitor's own reads do not always
+		// warm (and thereby hide) whatever the library might remember between calls
 		out := map[string]any{}
-		keys := x.Keys()
-		for i := 0; i < keys.Count(); i++ {
-			k := keys.GetString(i)
-			out[k] = x.Get(k)
+		switch objectObservation {
+		case 1:
+			for k, v := range x.Dict() {
+				out[k] = v
+			}
+		case 2:
+			x.ForEach(func(k string, v any) { out[k] = v })
+		default:
+			keys := x.Keys()
+			for i := 0; i < keys.Count(); i++ {
+				k := keys.GetString(i)
+				out[k] = x.Get(k)
+			}
 		}
 		return out
 	case []any:
@@ -277,6 +291,76 @@ func (s *c09Scenario) verify(changed *party, sig, after string) {
 			return
 		}
 	}
+}
+
+// rederive calls the deriving operations whose result is a plain image of the receiver and compares it with the
+// receiver's current top-level content.
+func (s *c09Scenario) rederive() {
+	recv := s.parties[0].val
+	bad := func(op, want, got string) {
+		s.failed = true
+		s.c.Violate("derived-result-stale:"+op, s.input()+"\n  then recv."+op+" once more", "an image of the receiver's current content "+want, got)
+	}
+	drive.Protect(func() {
+		switch x := recv.(type) {
+		case at.List:
+			now := top(x)
+			for _, d := range []struct {
+				op string
+				v  any
+			}{{"Slice()", x.Slice()}, {"SubList(0,0)", x.SubList(0, 0)}, {"Concat(empty)", x.Concat(at.NewList())}, {"Map(identity)", x.Map(func(i int, v any) any { return v })},
+				{"Filter(all)", x.Filter(func(any) bool { return true })}, {"MapValues(identity)", x.MapValues(func(v any) any { return v })}} {
+				s.c.Count("rederivations")
+				if !sameTop(now, top(d.v)) {
+					bad(d.op, showTop(now), showTop(top(d.v)))
+					return
+				}
+			}
+		case at.Object:
+			now := top(x).(map[string]any)
+			s.c.Count("rederivations")
+			if d := top(x.Dict()); !sameTop(now, d) {
+				bad("Dict()", showTop(now), showTop(d))
+				return
+			}
+			keys := top(x.Keys()).([]any)
+			seen := map[string]bool{}
+			ok := len(keys) == len(now)
+			for _, k := range keys {
+				ks, isStr := k.(string)
+				if _, has := now[ks]; !isStr || !has || seen[ks] {
+					ok = false
+				}
+				seen[ks] = true
+			}
+			if !ok {
+				bad("Keys()", showTop(now), showTop(keys))
+				return
+			}
+			vals := top(x.Values()).([]any)
+			used := map[string]bool{}
+			ok = len(vals) == len(now)
+			for _, v := range vals {
+				found := false
+				for k, w := range now {
+					if !used[k] && eqSlot(v, w) {
+						used[k], found = true, true
+						break
+					}
+				}
+				if !found {
+					ok = false
+				}
+			}
+			if !ok {
+				bad("Values()", showTop(now), showTop(vals))
+				return
+			}
+			if m := top(x.Map(func(k string, v any) any { return v })); !sameTop(now, m) {
+				bad("Map(identity)", showTop(now), showTop(m))
+			}
+		}
+	})
 }
 
 func intPred(mask uint64) func(int) bool {
@@ -574,6 +658,8 @@ func runC09(c *fw.Ctx) {
 
 func c09Case(c *fw.Ctx, r *rng.R, forceOp int, pinned bool) {
 	s := &c09Scenario{c: c, r: r}
+	objectObservation = r.Intn(3)
+	defer func() { objectObservation = 0 }()
 	guard(c, s.input, func() {
 		isList := r.Bool()
 		if forceOp >= 0 {
@@ -694,6 +780,11 @@ func c09Case(c *fw.Ctx, r *rng.R, forceOp int, pinned bool) {
 			s.trace = append(s.trace, p.name+"."+desc)
 			c.Count("mutations")
 			s.verify(p, "storage-shared-between-parties", p.name+"."+desc)
+		}
+		// derive once more after all the mutations: results must describe the receiver as it is now, not what an earlier
+		// (since modified) result looked like
+		if !s.failed && len(s.parties) > 0 {
+			s.rederive()
 		}
 		c.Distinct(s.input())
 		if c.WantSample() && len(s.trace) > 5 && len(s.input()) < 900 {
